@@ -20,6 +20,7 @@ func C13(c *core.Ctx) {
 		"Single decoder: every *Schema built in pkg/schemas is filled only through encoding/json, and the YAML reader is the pipeline " +
 		"YAML decode -> FixMapKeys -> json.Marshal -> json.Unmarshal in dominance order on one map. " +
 		"Structural type comparison (cmputil.Opts) ignores the raw $ref text. " +
+		"B-PARSER: the name whose extension selects the YAML or JSON parser in the file loader is the first result of QualifiedFileName (directly or through parameters at all call sites), i.e. the resolved file that is opened. " +
 		"Decided: these routing/precedence conditions. Not decided: byte equality of outputs, YAML scalar typing, the string-vs-list and true-vs-{} decodings (planned for the abstract interpreter)."
 	c.Trust("encoding/json decodes by struct tag", "goccy/go-yaml yields generic maps")
 	a := engb.New(c.Prog)
@@ -45,6 +46,8 @@ func C13(c *core.Ctx) {
 	} else {
 		c.Fail("B-LEGACY:prefix", "(*pkg/generator.schemaGenerator).extractRefNames", "pointer prefixes", "", strings.Join(problems, "; "), nil)
 	}
+	// B-PARSER: "YAML chosen by file extension" — of the file that is opened, i.e. after extension resolution and symlinks
+	emit(c, a.ParserChoice())
 	n, probs, notes := a.SchemaProducers()
 	c.Floor("B-LEGACY:decoder", n, 2, "functions that build a *Schema")
 	if len(probs) == 0 {
